@@ -31,6 +31,7 @@ CONSTANTS Part,         \* "rx" or "tx"
           Deviations,   \* subset of AllDeviations
           Roles,        \* rx: roles of the receiving endpoint explored, subset of {"client","server"}
           InitPhases,   \* rx: phases a behaviour may start in (the harness walks a live pair there)
+          Reps,         \* rx: how many copies of an unauthentic record arrive back to back, e.g. {1, 4, 5, 101}
           FlipBits,     \* rx: [content type -> number of bits of the genuine record that is flipped]
           Senders,      \* tx: set of concurrent callers of send()
           Limit,        \* tx: path limit in model units (MAX_APP_DATA_RECORD_SIZE)
@@ -97,10 +98,10 @@ RewriteHows == {"hdr", "nonce"}
 PlainHs     == {"e0-hs-dup", "e0-hs-finished", "e0-hs-finished-next", "e0-hs-cert", "e0-hs-cert-next",
                 "e0-hs-hvr", "e0-hs-hvr-next"}
 
-Rec(c, k, s, p, h) == [ct |-> c, cls |-> k, src |-> s, pos |-> p, how |-> h]
+Rec(c, k, s, p, h) == [ct |-> c, cls |-> k, src |-> s, pos |-> p, how |-> h, rep |-> 1]
 
 \* authenticity classes; "pos" is a bit position for e1-flip, "how" a variant for trunc / rewrite
-Records(r, ph) ==
+Records1(r, ph) ==
   LET S == Src IN
        { Rec(c, "e0-plain", s, -1, "")   : c \in CT, s \in S }
   \cup { Rec(c, "e1-wrongkey", s, -1, "") : c \in CT, s \in S }
@@ -131,6 +132,17 @@ Records(r, ph) ==
   \cup (IF HaveKeys(r, ph)
         THEN { Rec("AppData", k, s, -1, h) : k \in {"dg-bad+auth", "dg-auth+bad"}, s \in S, h \in BadKinds }
         ELSE {})
+
+\* representative flip positions that are also repeated (first/last header bit, the low epoch bit,
+\* one bit of the sequence number, first nonce bit, first body bit, last tag bit)
+RepFlip(rec) == rec.pos \in {0, 7, 39, 100, 104, 168, FlipBits[rec.ct] - 1}
+
+\* the same unauthentic record class `rep` times back to back, observed after the last copy: a drop that
+\* only covers the first few failures (rate-limited handling) shows up for rep > 3
+RepsFor(rec) == IF rec.cls \in {"e1-auth", "e1-replay", "e2-sealed", "dg-bad+auth", "dg-auth+bad", "start", "derive-keys"}
+                   \/ (rec.cls = "e1-flip" /\ ~RepFlip(rec))
+                THEN {1} ELSE Reps
+Records(r, ph) == UNION { { [rec EXCEPT !.rep = k] : k \in RepsFor(rec) } : rec \in Records1(r, ph) }
 
 \* "decrypts and authenticates under the negotiated keys" (a replay and a record
 \* sealed for a later epoch do - the property does not speak about either)
